@@ -126,6 +126,8 @@ pub struct WRun {
     /// pixel bytes supplied per image (successfully written ones), with their dimensions
     pub images: Vec<(u32, u32, Vec<u8>)>,
     pub errors_before_finish: usize,
+    /// frame-parameter setters that returned Ok for a rectangle outside the canvas / of zero size (C19: invalid parameters are errors)
+    pub illegal_accepted: Vec<String>,
 }
 
 fn enc_err(e: &png::EncodingError) -> String {
@@ -137,7 +139,7 @@ fn enc_err(e: &png::EncodingError) -> String {
 
 /// Execute a writer history against `sink`.  `finish`: call Writer::finish (else drop).
 pub fn run_writer(cfg: &WCfg, ops: &[WOp], sink: Sink, finish: bool, rng: &mut Rng) -> WRun {
-    let mut run = WRun { results: vec![], finish: "-".into(), panicked: None, images: vec![], errors_before_finish: 0 };
+    let mut run = WRun { results: vec![], finish: "-".into(), panicked: None, images: vec![], errors_before_finish: 0, illegal_accepted: vec![] };
     let bits = samples(cfg.color) * cfg.depth as usize;
     let r = guarded(|| {
         let mut e = png::Encoder::new(sink.clone(), cfg.w, cfg.h);
@@ -167,6 +169,7 @@ pub fn run_writer(cfg: &WCfg, ops: &[WOp], sink: Sink, finish: bool, rng: &mut R
         };
         run.results.push("write_header ok".into());
         let (mut fw, mut fh) = (cfg.w, cfg.h);
+        let (mut fx, mut fy) = (0u32, 0u32);
         let mut w = Some(w);
         for op in ops {
             if let WOp::IntoStream { size, parts, fraction } = op {
@@ -203,10 +206,26 @@ pub fn run_writer(cfg: &WCfg, ops: &[WOp], sink: Sink, finish: bool, rng: &mut R
             }
             let w = w.as_mut().unwrap();
             let res: String = match op {
-                WOp::FrameDim(a, b) => match w.set_frame_dimension(*a, *b) { Ok(()) => { fw = *a; fh = *b; "ok".into() } Err(er) => enc_err(&er) },
-                WOp::FramePos(a, b) => match w.set_frame_position(*a, *b) { Ok(()) => "ok".into(), Err(er) => enc_err(&er) },
-                WOp::ResetDim => match w.reset_frame_dimension() { Ok(()) => { fw = cfg.w; fh = cfg.h; "ok".into() } Err(er) => enc_err(&er) },
-                WOp::ResetPos => match w.reset_frame_position() { Ok(()) => "ok".into(), Err(er) => enc_err(&er) },
+                WOp::FrameDim(a, b) => match w.set_frame_dimension(*a, *b) {
+                    Ok(()) => {
+                        if *a == 0 || *b == 0 || fx as u64 + *a as u64 > cfg.w as u64 || fy as u64 + *b as u64 > cfg.h as u64 {
+                            run.illegal_accepted.push(format!("set_frame_dimension({}, {}) at offset ({}, {}) on a {}x{} canvas returned Ok", a, b, fx, fy, cfg.w, cfg.h));
+                        }
+                        fw = *a; fh = *b; "ok".into()
+                    }
+                    Err(er) => enc_err(&er),
+                },
+                WOp::FramePos(a, b) => match w.set_frame_position(*a, *b) {
+                    Ok(()) => {
+                        if *a as u64 + fw as u64 > cfg.w as u64 || *b as u64 + fh as u64 > cfg.h as u64 {
+                            run.illegal_accepted.push(format!("set_frame_position({}, {}) for a {}x{} frame on a {}x{} canvas returned Ok", a, b, fw, fh, cfg.w, cfg.h));
+                        }
+                        fx = *a; fy = *b; "ok".into()
+                    }
+                    Err(er) => enc_err(&er),
+                },
+                WOp::ResetDim => match w.reset_frame_dimension() { Ok(()) => { fw = cfg.w - fx.min(cfg.w); fh = cfg.h - fy.min(cfg.h); "ok".into() } Err(er) => enc_err(&er) },
+                WOp::ResetPos => match w.reset_frame_position() { Ok(()) => { fx = 0; fy = 0; "ok".into() } Err(er) => enc_err(&er) },
                 WOp::Delay(a, b) => match w.set_frame_delay(*a, *b) { Ok(()) => "ok".into(), Err(er) => enc_err(&er) },
                 WOp::Blend(b) => match w.set_blend_op(if *b == 0 { png::BlendOp::Source } else { png::BlendOp::Over }) { Ok(()) => "ok".into(), Err(er) => enc_err(&er) },
                 WOp::Dispose(b) => match w.set_dispose_op(match b { 0 => png::DisposeOp::None, 1 => png::DisposeOp::Background, _ => png::DisposeOp::Previous }) { Ok(()) => "ok".into(), Err(er) => enc_err(&er) },
@@ -325,6 +344,14 @@ pub fn run(a: &Args) {
     for k in 0..(if thorough { 60000 } else { 2500 }) {
         let cfg = random_cfg(&mut rng, None);
         let ops = declared_ops(&cfg, &mut rng, true, true);
+        let mut ops = ops;
+        // every 7th still image: the (only) image is written through an OWNED stream writer that is finished (the Writer's own end-of-stream handling must not add a second IEND)
+        if cfg.animated.is_none() && k % 7 == 0 {
+            if let Some(pos) = ops.iter().position(|x| matches!(x, WOp::Image { .. })) {
+                ops.truncate(pos);
+                ops.push(WOp::IntoStream { size: *rng.pick(&[1usize, 7, 64, 4096]), parts: vec![rng.range(1, 30) as usize], fraction: 4 });
+            }
+        }
         let short = if k % 3 == 0 { rng.range(1, 9) as usize } else { 0 };
         let sink = Sink::new(short, None, false);
         let finish = k % 4 != 3;
@@ -332,7 +359,7 @@ pub fn run(a: &Args) {
         let run = run_writer(&cfg, &ops, sink.clone(), finish, &mut rng);
         o.direct_checks += 1;
         let bytes = sink.0.borrow().accepted.clone();
-        let uses_stream = ops.iter().any(|x| matches!(x, WOp::Image { stream: Some(_), .. }));
+        let uses_stream = ops.iter().any(|x| matches!(x, WOp::Image { stream: Some(_), .. } | WOp::IntoStream { .. }));
         o.count(&format!("cfg.{}{}{}", if cfg.animated.is_some() { "animated" } else { "still" }, if cfg.sep { "+sep" } else { "" }, if uses_stream { "+stream" } else { "" }));
         o.distinct(&format!("{}-{}-{:?}-{}-{}-{}", cfg.color, cfg.depth, cfg.animated.map(|x| x.0), cfg.sep, uses_stream, finish));
         let detail = |why: &str| vec![("config", jstr(&format!("{:?}", cfg))), ("ops", jstr(&format!("{:?}", ops))), ("finish", finish.to_string()), ("why", jstr(why)),
